@@ -67,8 +67,10 @@ def run(ctx):
         if not ok2:
             return
     n = 40 if quick else 400
-    seeds = [0, 1] if quick else [0, 1, 2]
+    seeds = [0, 1, 2] if quick else [0, 1, 2, 3, 4]
     gs = [M.rand_grammar(ctx.rng, boolean=True, pnull=0.2, punary=0.25) for _ in range(n)]
+    # grammars whose left-corner graph is cyclic (unary cycles, mutual left recursion) and that are right recursive too
+    gs += [M.rand_leftcorner_grammar(ctx.rng) for _ in range(n)]
     tab = PrefixTable(ctx, "bool", "mask")
     plan = []
     for g in gs:
